@@ -51,7 +51,7 @@ def channel(draw, has_bnodes):
     parts = draw(st.integers(1, 4)) if how in ("files", "urls") or comp == "zip" else 1
     assign = draw(st.lists(st.integers(0, 3), min_size=1, max_size=12))
     return {"fmt": fmt, "how": how, "comp": comp, "parts": parts, "assign": assign, "zips": draw(st.integers(1, 2)),
-            "pfx": draw(st.integers(0, 15))}
+            "pfx": draw(st.integers(0, 63))}
 
 
 @st.composite
@@ -110,7 +110,7 @@ def content(fmt, triples, pfx=0):
             # two documents concatenated: the second half re-binds the prefix labels of the first half to other namespaces
             h = len(triples) // 2
             return to_simple_turtle(triples[:h], REBIND[0], bare_integers=bare) + to_simple_turtle(triples[h:], REBIND[1], bare_integers=bare)
-        return to_simple_turtle(triples, TTL_PREFIXES[pfx % len(TTL_PREFIXES)], bare_integers=bare)
+        return to_simple_turtle(triples, TTL_PREFIXES[pfx % len(TTL_PREFIXES)], bare_integers=bare, layout=pfx // (4 * len(TTL_PREFIXES)))
     g = to_rdflib(triples)
     for k, v in TTL_PREFIXES[pfx % len(TTL_PREFIXES)].items():
         g.bind(k, v)        # the serialised document declares these prefixes too
